@@ -706,6 +706,15 @@ pub fn run_one(out: &mut Out, sc: usize, s: &J) {
         if c0 <= give + 1_000_000 { return; }
         s2["utxo"][0]["value"]["coin_n"] = jn(c0 - give);
         run_pass(out, sc, &s2);
+    } else if let Some(d) = rr.get("pct_edge").and_then(|x| x.as_u64()) {
+        // the percentage at which fee x percentage / 100 just leaves 64 bits (fee of the first pass): the helper has to refuse, not wrap
+        let fee: u64 = tx.body().fee().into();
+        if fee == 0 { return; }
+        let pct = (((1u128 << 64) * 100) / fee as u128) as u64;
+        let mut ops = s2["ops"].as_array().cloned().unwrap_or_default();
+        for o in ops.iter_mut() { if o["op"] == "AddInputsFromAndChangeWithCollateralReturn" { o["pct_n"] = jn(pct.saturating_add(d)); } }
+        s2["ops"] = J::Array(ops);
+        run_pass(out, sc, &s2);
     } else if let Some(k) = rr.get("max_val").and_then(|x| x.as_u64()) {
         // max_value_size just below the largest value the first transaction carries
         let outs = tx.body().outputs();
@@ -1051,7 +1060,8 @@ pub fn gen(rng: &mut Rng) -> J {
         ops.push(json!({"op": "AddInputsFromAndChangeWithCollateralReturn", "strat": *rng.pick(&["LargestFirstMultiAsset", "RandomImproveMultiAsset"]), "us": us, "to": to, "seed": rng.below(1000), "pct_n": jn(pct)}));
     } else if select {
         let us: Vec<u64> = (1..=nu).collect();
-        ops.push(json!({"op": "AddInputsFromAndChange", "strat": *rng.pick(&["LargestFirstMultiAsset", "RandomImproveMultiAsset"]), "us": us, "to": to, "seed": rng.below(1000)}));
+        // (the two lovelace-only strategies as well: they refuse asset-carrying requests, and are judged like the others when they accept)
+        ops.push(json!({"op": "AddInputsFromAndChange", "strat": *rng.pick(&["LargestFirstMultiAsset", "RandomImproveMultiAsset", "LargestFirstMultiAsset", "RandomImproveMultiAsset", "LargestFirst", "RandomImprove"]), "us": us, "to": to, "seed": rng.below(1000)}));
     } else if rng.chance(1, 10) {
         ops.push(json!({"op": "SetFee", "n": jn(200_000 + rng.below(300_000))}));
     } else {
@@ -1074,6 +1084,7 @@ pub fn gen(rng: &mut Rng) -> J {
     ops.push(json!({"op": "Build"}));
     if rng.chance(1, 4) { ops.push(json!({"op": "BuildAgain"})); }
     let mut scn = json!({"pp": pp, "utxo": utxo, "ops": ops});
+    if col_pct.is_some() && rng.chance(1, 3) { scn["rerun"] = json!({"pct_edge": *rng.pick(&[0u64, 1, 2, 50, 100_000, 1 << 40])}); return scn; }
     if !select && col_pct.is_none() && rng.chance(1, 8) { scn["rerun"] = json!({"exact_edge": *rng.pick(&[0i64, 0, 0, 1, -1, 2, 200])}); return scn; }
     match rng.below(12) { 0 => { scn["rerun"] = json!({"max_tx": rng.below(3)}); } 1 => { scn["rerun"] = json!({"fixed_fee": rng.below(1001)}); } 2 => { scn["rerun"] = json!({"max_val": rng.below(4)}); } 3 | 4 => { scn["rerun"] = json!({"change_edge": rng.below(8000) as i64 - 2000}); } 5 | 6 => { scn["rerun"] = json!({"width_edge": rng.below(700) as i64 - 100}); } _ => {} }
     scn
@@ -1242,13 +1253,16 @@ pub fn gen_plutus(rng: &mut Rng) -> J {
     // an output that is referenced for the script it holds may serve as collateral too (only SPENT inputs must differ from reference inputs)
     if rng.chance(1, 5) { if let Some(r) = src.values().find_map(|v| v.get("ref").and_then(|x| x.as_u64())) { ops.push(json!({"op": "AddCollateral", "u": r})); } }
     // the hash is computed after the last operation that adds an input: with coin selection that is after the selecting call
-    if !select { ops.push(json!({"op": "CalcScriptDataHash", "langs": [1, 2, 3]})); }
+    // cost models are usually supplied for all three languages; sometimes only for some (a language in use without its cost model
+    // makes the call fail - it must not produce a hash that leaves that language out)
+    let langs = match rng.below(10) { 0 => json!([1]), 1 => json!([2]), 2 => json!([3]), 3 => json!([1, 2]), 4 => json!([2, 3]), _ => json!([1, 2, 3]) };
+    if !select { ops.push(json!({"op": "CalcScriptDataHash", "langs": langs})); }
     let to = json!({"kind": "ent", "k": 15});
     if rng.chance(1, 3) { ops.push(json!({"op": "SetTotalCollateralAndReturn", "to": to, "n": jn(1_000_000 + rng.below(3_000_000))})); }
     // mostly balanced by the builder; sometimes the caller fixes the fee somewhere between the linear part and a generous total
     // (selection, then the hash, then change: add_inputs_from_and_change would leave no place for the hash between the two)
     if select { ops.push(json!({"op": "AddInputsFrom", "strat": *rng.pick(&["LargestFirst", "RandomImprove", "LargestFirstMultiAsset", "RandomImproveMultiAsset"]), "us": pool, "seed": rng.below(1000)}));
-                ops.push(json!({"op": "CalcScriptDataHash", "langs": [1, 2, 3]}));
+                ops.push(json!({"op": "CalcScriptDataHash", "langs": langs}));
                 ops.push(json!({"op": "AddChange", "to": to})); }
     else if rng.chance(1, 7) { ops.push(json!({"op": "SetFee", "n": jn(155_381 + 44 * (400 + rng.below(1200)) + rng.below(150_000))})); }
     else { ops.push(json!({"op": "AddChange", "to": to})); }
